@@ -36,8 +36,6 @@ type Item struct {
 
 func (it Item) Bytes() []byte { return append([]byte{byte(it.Tok)}, it.Body...) }
 
-// renderers for delivered packages, by Go type (other groups add theirs)
-var Renderers []func(p tds.Package) (tok int, fields sx.T, ok bool)
 
 func renderCore(p tds.Package) (int, sx.T, bool) {
 	switch t := p.(type) {
@@ -84,7 +82,7 @@ func guessLen(d tds.FieldData) int {
 }
 
 func renderAny(p tds.Package) sx.T {
-	for _, r := range append([]func(tds.Package) (int, sx.T, bool){renderCore}, Renderers...) {
+	for _, r := range append([]func(tds.Package) (int, sx.T, bool){renderCore}, pk.Renderers...) {
 		if tok, f, ok := r(p); ok {
 			return sx.L{sx.I(1), sx.I(int64(tok)), f}
 		}
@@ -168,6 +166,7 @@ func RxRun(need, nenv, ps0 int, pkts []Pkt) (res sx.L, fed int) {
 		var evs sx.L
 		j := 0
 		hi := 0
+		fatalEarly := false
 		for {
 			for hi < len(hooks) && hooks[hi].before <= j {
 				evs = append(evs, hooks[hi].t)
@@ -178,6 +177,7 @@ func RxRun(need, nenv, ps0 int, pkts []Pkt) (res sx.L, fed int) {
 				if !errors.Is(err, tds.ErrNoPackageReady) {
 					// an error surfaced instead of "no package": put it back as an error event
 					evs = append(evs, sx.L{sx.I(7), sx.I(0)})
+					fatalEarly = true
 				}
 				break
 			}
@@ -187,7 +187,7 @@ func RxRun(need, nenv, ps0 int, pkts []Pkt) (res sx.L, fed int) {
 		for ; hi < len(hooks); hi++ {
 			evs = append(evs, hooks[hi].t)
 		}
-		fatal := false
+		fatal := fatalEarly
 		for {
 			e := ch.VerifNextErr()
 			if e == nil {
@@ -240,6 +240,10 @@ func envItem(g *pk.Gen, members int) Item {
 			if g.Rng.Intn(12) == 0 {
 				nv = "x12"
 			}
+			if rxNoEnvErr {
+				// consumer-level runs: no queued errors (with an error AND the no-wait answer ready, select picks at random)
+				nv = fmt.Sprint([]int{512, 1024, 2048, 4096}[g.Rng.Intn(4)])
+			}
 		}
 		inner = append(inner, pk.Cat([]byte{byte(typ)}, pk.LP8([]byte(nv)), pk.LP8([]byte(ov)))...)
 	}
@@ -247,7 +251,14 @@ func envItem(g *pk.Gen, members int) Item {
 }
 
 var rxTypes = []asetypes.DataType{asetypes.INT4, asetypes.INT2, asetypes.INT8, asetypes.VARCHAR, asetypes.CHAR, asetypes.VARBINARY, asetypes.LONGCHAR,
-	asetypes.INTN, asetypes.DATETIME, asetypes.DATE, asetypes.FLT8, asetypes.MONEY, asetypes.BIT}
+	asetypes.INTN, asetypes.FLT8, asetypes.MONEY, asetypes.DATETIME, asetypes.DATE, asetypes.BIT}
+
+// the first rxSafe types re-encode to the same bytes whatever the bytes are (needed when the stream is mutated:
+// the harness renders a value by re-encoding it; temporal values and bits are normalised by that)
+const rxSafe = 10
+
+var rxMutated = false
+var rxNoEnvErr = false
 
 func infoOf(dt asetypes.DataType) dtInfo {
 	for _, i := range dts {
@@ -262,7 +273,11 @@ func infoOf(dt asetypes.DataType) dtInfo {
 func resultSet(g *pk.Gen, wide bool, ncols, nrows int) []Item {
 	var fs []Fmt
 	for i := 0; i < ncols; i++ {
-		info := infoOf(rxTypes[g.Rng.Intn(len(rxTypes))])
+		nt := len(rxTypes)
+		if rxMutated {
+			nt = rxSafe
+		}
+		info := infoOf(rxTypes[g.Rng.Intn(nt)])
 		f := randFmt(g, info, wide, true, g.Rng.Intn(4) == 0)
 		f.name, f.locale = randName(g, 6), ""
 		if wide {
@@ -480,6 +495,8 @@ func GenRx(g *pk.Gen) {
 	if g.Thorough {
 		nm = 10000
 	}
+	rxMutated = true
+	defer func() { rxMutated = false }()
 	for i := 0; i < nm; i++ {
 		msg := stream(Response(g))
 		if len(msg) == 0 || g.Rng.Intn(5) == 0 {
@@ -617,6 +634,8 @@ func ConsumerRun(need, nenv int, rounds [][]Pkt, calls [][]Call) sx.L {
 
 // GenConsumer: histories of rounds with every callback stop point (short responses) and outcome.
 func GenConsumer(g *pk.Gen) {
+	rxNoEnvErr = true
+	defer func() { rxNoEnvErr = false }()
 	n := 150
 	if g.Thorough {
 		n = 5000
